@@ -67,9 +67,72 @@ class _SurfaceNormaliser(ast.NodeTransformer):
         self.generic_visit(n)
         self.depth -= 1
         if self.depth == 0:
+            self._next_to_loops(n)
             self._inline_explaining_vars(n)
             self._flatten_else(n)
         return n
+
+    # `next((elt for t in it if c), d)` is the loop `for t in it: if c: <take elt>` with `d` when nothing matches
+    def _next_to_loops(self, fn) -> None:
+        def gen_of(e):
+            if isinstance(e, ast.Call) and isinstance(e.func, ast.Name) and e.func.id == "next" and len(e.args) == 2 and not e.keywords \
+                    and isinstance(e.args[0], ast.GeneratorExp) and len(e.args[0].generators) == 1 and not e.args[0].generators[0].is_async:
+                return e.args[0], e.args[1]
+            return None
+
+        def loop(g, body):
+            c = g.generators[0]
+            inner = body
+            if c.ifs:
+                test = c.ifs[0] if len(c.ifs) == 1 else ast.BoolOp(op=ast.And(), values=list(c.ifs))
+                inner = [ast.If(test=test, body=body, orelse=[])]
+            return ast.For(target=c.target, iter=c.iter, body=inner, orelse=[], type_comment=None)
+
+        cnt = {}
+        for x in ast.walk(fn):
+            if isinstance(x, ast.Name):
+                cnt[x.id] = cnt.get(x.id, 0) + 1
+        for node in ast.walk(fn):
+            for fld in ("body", "orelse", "finalbody"):
+                b = getattr(node, fld, None)
+                if not (isinstance(b, list) and b and isinstance(b[0], ast.stmt)):
+                    continue
+                i = 0
+                while i < len(b):
+                    st = b[i]
+                    new = None
+                    if isinstance(st, ast.Return) and st.value is not None and gen_of(st.value):
+                        g, d = gen_of(st.value)
+                        new = [loop(g, [ast.Return(value=g.elt)]), ast.Return(value=d)]
+                    elif isinstance(st, ast.Assign) and len(st.targets) == 1 and isinstance(st.targets[0], ast.Name) and gen_of(st.value):
+                        g, d = gen_of(st.value)
+                        v = st.targets[0].id
+                        nx = b[i + 1] if i + 1 < len(b) else None
+                        if isinstance(d, ast.Constant) and d.value is None and cnt.get(v) == 3 and isinstance(nx, ast.If) and not nx.orelse \
+                                and ast.unparse(nx.test) == f"{v} is not None" and len(nx.body) == 1 and isinstance(nx.body[0], ast.Return) \
+                                and ast.unparse(nx.body[0].value) == v:
+                            new = [loop(g, [ast.Return(value=g.elt)])]
+                            del b[i + 1]
+                        else:
+                            new = [ast.Assign(targets=[ast.Name(id=v, ctx=ast.Store())], value=d),
+                                   loop(g, [ast.Assign(targets=[ast.Name(id=v, ctx=ast.Store())], value=g.elt), ast.Break()])]
+                    if new is not None:
+                        for x in new:
+                            ast.copy_location(x, st)
+                            ast.fix_missing_locations(x)
+                        for t in ast.walk(new[0] if isinstance(new[0], ast.For) else new[-1]):
+                            pass
+                        b[i:i + 1] = new
+                        self.count += 1
+                        i += len(new)
+                    else:
+                        i += 1
+        # loop targets become stores
+        for x in ast.walk(fn):
+            if isinstance(x, ast.For):
+                for t in ast.walk(x.target):
+                    if isinstance(t, (ast.Name, ast.Tuple, ast.List)):
+                        t.ctx = ast.Store()
 
     # `if c: ...; return` + `else: B`  ==  `if c: ...; return` followed by B (canonical form: flattened); elif chains are
     # left alone (rules read them as dispatch tables)
